@@ -20,10 +20,17 @@
 (***************************************************************************)
 EXTENDS SchemaModel, Json, IOUtils
 
-CONSTANT Family       \* "graphs" | "names"
+CONSTANTS Family,     \* "graphs" | "names"
+          NodesN,     \* nodes of the graph families: 3 (every graph: 512) or 4 (65536 graphs, thinned by GStride)
+          GStride
 
-N3 == 1..3
-Graphs == SUBSET (N3 \X N3)
+N3 == 1..NodesN
+\* a graph is given by one successor bit mask per node
+Masks == 0..(2 ^ NodesN - 1)
+Succ(m) == { j \in N3 : (m \div (2 ^ (j - 1))) % 2 = 1 }
+GraphOf(ms) == { <<i, j>> \in N3 \X N3 : j \in Succ(ms[i]) }
+MaskTuples == { ms \in [N3 -> Masks] : (ms[1] + 7 * ms[2] + 3 * ms[3] + (IF NodesN > 3 THEN 5 * ms[4] ELSE 0)) % GStride = 0 }
+Graphs == { GraphOf(ms) : ms \in MaskTuples }
 A(k, v) == <<[k |-> k, v |-> v]>>
 NoA == <<>>
 Ref(q, n) == [q |-> q, n |-> n]
@@ -40,12 +47,12 @@ Applies(ps, rs, ctx) == [t |-> "some", principals |-> ps, resources |-> rs, cont
 Ns(name, ents, enums, acts, commons) == [name |-> name, annos |-> NoA, entities |-> ents, enums |-> enums, actions |-> acts, commons |-> commons]
 SetToSeqBy(S) == LET RECURSIVE F(_) F(T) == IF T = {} THEN <<>> ELSE LET x == CHOOSE y \in T : TRUE IN <<x>> \o F(T \ {x}) IN F(S)
 
-EN == <<"A", "B", "C">>   CN == <<"T", "U", "V">>   AN == <<"a", "b c", "if">>
+EN == <<"A", "B", "C", "D">>   CN == <<"T", "U", "V", "W">>   AN == <<"a", "b c", "if", "d">>
 
 \* (1) entity parents: node i has parents { j : <<i, j>> \in g }; q = qualifier used in references
 EntGraph(ns, q, g) ==
   Ns(ns, [i \in N3 |-> Ent(EN[i], SetToSeqBy({ Ref(IF j = 3 THEN q ELSE "", EN[j]) : j \in { k \in N3 : <<i, k>> \in g } }),
-                           <<Attr("n", TLong, FALSE), Attr("p", TSet(TEnt("", EN[(i % 3) + 1])), TRUE)>>, IF i = 1 THEN TString ELSE None)],
+                           <<Attr("n", TLong, FALSE), Attr("p", TSet(TEnt("", EN[(i % NodesN) + 1])), TRUE)>>, IF i = 1 THEN TString ELSE None)],
      <<>>,
      << Act("view", <<>>, Applies(<<Ref("", "A"), Ref("", "B")>>, <<Ref("", "C")>>, TRec(<<Attr("k", TLong, FALSE)>>))) >>,
      <<>>)
@@ -67,9 +74,9 @@ ActionGraph(ns, q, g) ==
 \* (2b) common types across namespaces: node 1 = T in the empty namespace, nodes 2, 3 = N::U, N::V.  A reference from
 \* inside N to T is unqualified (it falls through to the empty namespace), from T into N qualified, inside N unqualified
 \* (edge to U) or qualified (edge to V); an entity of N uses U, an action context uses T
-CrossNode == <<[ns |-> "", n |-> "T"], [ns |-> "N", n |-> "U"], [ns |-> "N", n |-> "V"]>>
+CrossNode == <<[ns |-> "", n |-> "T"], [ns |-> "N", n |-> "U"], [ns |-> "N", n |-> "V"], [ns |-> "N", n |-> "W"]>>
 CrossRef(i, j) == IF i = 1 THEN TRef("N", CrossNode[j].n)
-                  ELSE IF j = 1 THEN TRef("", "T") ELSE IF j = 2 THEN TRef("", "U") ELSE TRef("N", "V")
+                  ELSE IF j = 1 THEN TRef("", "T") ELSE IF j = 2 THEN TRef("", "U") ELSE TRef("N", CrossNode[j].n)
 CrossType(i, g) == LET js == SetToSeqBy({ k \in N3 : <<i, k>> \in g }) IN
                    IF js = <<>> THEN TLong
                    ELSE TRec([m \in DOMAIN js |-> Attr(CrossNode[js[m]].n, IF m = 1 THEN TSet(CrossRef(i, js[m])) ELSE CrossRef(i, js[m]), m = 2)])
@@ -77,7 +84,7 @@ CrossCommonGraph(g) ==
   [ns |-> << Ns("", <<>>, <<>>, <<>>, <<[name |-> "T", annos |-> NoA, type |-> CrossType(1, g)]>>),
              Ns("N", << Ent("E", <<>>, <<Attr("u", TRef("", "U"), FALSE)>>, None) >>, <<>>,
                 << Act("a", <<>>, Applies(<<Ref("", "E")>>, <<Ref("", "E")>>, TRec(<<Attr("t", TRef("", "T"), TRUE)>>))) >>,
-                <<[name |-> "U", annos |-> NoA, type |-> CrossType(2, g)], [name |-> "V", annos |-> NoA, type |-> CrossType(3, g)]>>) >>]
+                [k \in 1..(NodesN - 1) |-> [name |-> CrossNode[k + 1].n, annos |-> NoA, type |-> CrossType(k + 1, g)]]) >>]
 
 GraphSchemas(g) ==
   << [ns |-> <<EntGraph("", "", g)>>], [ns |-> <<EntGraph("N", "N", g)>>],
